@@ -714,7 +714,11 @@ def _parse_integer_literal(token: Token) -> int:
     value = to_int(mantissa)
     if exponent:
         power = to_int(exponent)
-        if MAX_STR_INT and power > MAX_STR_INT:
+        if not value:
+            return 0
+        # The mantissa's digits count too. The value must be printable.
+        digits = len(mantissa.lstrip("+-")) + power
+        if MAX_STR_INT and digits > MAX_STR_INT:
             raise LiquidSyntaxError("integer literal is too big", token=token)
         value *= 10**power
     return value
